@@ -81,13 +81,14 @@ pub fn parse_snapshot(bytes: &[u8]) -> Result<Snapshot, String> {
     let mut c = Cur { b: bytes, p: 0 };
     let version = c.u64("snapshot version")?;
     let n = c.u32("snapshot count")?;
-    let mut entries = Vec::new();
+    let mut entries: Vec<(Vec<u8>, Hash32, u64)> = Vec::new();
+    let mut seen: std::collections::BTreeSet<Vec<u8>> = std::collections::BTreeSet::new();
     for i in 0..n {
         let klen = c.u32("snapshot key length")? as usize;
         let key = c.take(klen, "snapshot key")?.to_vec();
         let hash = c.h32("snapshot hash")?;
         let size = c.u64("snapshot size")?;
-        if entries.iter().any(|(k, _, _): &(Vec<u8>, Hash32, u64)| *k == key) {
+        if !seen.insert(key.clone()) {
             return Err(format!("snapshot entry {i}: duplicate key"));
         }
         entries.push((key, hash, size));
